@@ -460,7 +460,7 @@ def run(ctx):
     for k in range(ctx.n(130, 2000)):
         desc = gen_desc(rng, small=(k % 10 == 0))
         _one(ctx, desc, terms, pend, sample=(k < 2))
-    model = ctx.coq_eval("c31", "Base.QN C31.Model", terms, shard=60)
+    model = ctx.coq_eval("c31", "Base.QN C31.Model", terms, shard=45, timeout=900)
     _compare(ctx, pend, model)
 
 
@@ -468,5 +468,5 @@ def replay(ctx, rec):
     desc = rec["case"]
     terms, pend = [], []
     _one(ctx, desc, terms, pend, sample=True)
-    model = ctx.coq_eval("c31", "Base.QN C31.Model", terms, shard=60)
+    model = ctx.coq_eval("c31", "Base.QN C31.Model", terms, shard=45, timeout=900)
     _compare(ctx, pend, model)
